@@ -520,7 +520,7 @@ def layouts(res, rng, ncases, cpp, ml, corpus=True):
             if r['EXC'].startswith('char*') and c['mode'] == 3:
                 v['fingerprint'] = 'vpsc_satisfy_throws_charptr'
             # classifier: coordinates run away (assertion on the rectangle width fails at huge coordinates) in the combination below
-            if majorization_divergence_domain(c) and 'fabs(width()-w)<1e-9' in r['EXC']:
+            if majorization_divergence_domain(c) and ('fabs(width()-w)<1e-9' in r['EXC'] or 'fabs(height()-h)<1e-9' in r['EXC']):
                 v['fingerprint'] = 'majorization_fixedrelative_overlap_divergence'
             viols.append(v)
             continue
